@@ -182,7 +182,7 @@ def run(tier):
         for e in ents:
             ob = vlib.read_obs(obs[e["name"]])
             if ob["outcome"] == "accepted" and ob["reader"] == "ok":
-                recs.append({"id": e["name"], "ast": ob["ast"], "ifaces": e["ifaces"]})
+                recs.append({"id": e["name"], "ast": ob["ast"], "ifaces": e["ifaces"], "typecheck": 0, "top": e["name"].lower()})
         # static part: interface, port maps, once-only, bottom-up (VhdlStatic evaluated by TLC)
         res = vlib.run_tlc_shards("MC_Static.tla", "MC_Static.cfg", [{"designs": s} for s in vlib.shard(recs, 4)], scratch, timeout=600)
         fam = {e["name"]: e["family"] for e in ents}
